@@ -43,6 +43,16 @@ def q(r, lo=-48, hi=48):
     return r.randint(lo, hi) / 16.0
 
 
+LONG = [1.000005, 10.00007, 1234.567, 100000.5, 0.001234567, 1.234567e-05, 123456.7, 1.500001, 2.000003, 33333.35]
+
+
+def qlong(r):
+    """mostly short dyadic values, sometimes one that needs all seven significant digits"""
+    if r.random() < 0.15:
+        return r.choice(LONG) * r.choice([1, -1])
+    return q(r)
+
+
 # =============================================================================== construction
 
 class St(object):
@@ -57,7 +67,7 @@ class St(object):
 def new_source(st, r, comps, nrows, prefix='src'):
     import numpy
     from collada import source
-    vals = [q(r) for _ in range(nrows * len(comps))]
+    vals = [qlong(r) for _ in range(nrows * len(comps))]
     return source.FloatSource(st.fresh(prefix), numpy.array(vals, dtype=numpy.float32), comps)
 
 
@@ -509,6 +519,13 @@ def apply_op(doc, st, op, out):
             setattr(doc, lib, items)
         elif how == 'reverse':
             lst.reverse()
+        elif how == 'clear':
+            for v in list(lst):
+                if lib == 'images' and image_referenced(doc, v):
+                    continue
+                cascade_remove(doc, lib, v)
+                if v in lst:
+                    lst.remove(v)
         elif how == 'move' and n:
             o = lst.pop(op['pos'] % n)
             lst.insert(op['pos2'] % n, o)
@@ -545,10 +562,10 @@ def apply_op(doc, st, op, out):
             srcs = [s for s in g.sourceById.values() if isinstance(s, source.FloatSource)]
             if srcs:
                 s = srcs[op['pos'] % len(srcs)]
-                s.data = numpy.array([q(r) for _ in range(s.data.size)], dtype=numpy.float32).reshape(s.data.shape)
+                s.data = numpy.array([qlong(r) for _ in range(s.data.size)], dtype=numpy.float32).reshape(s.data.shape)
         elif how == 'attr':
-            g.name = r.choice(['', 'renamedgeom', 'G3'])
-            g.double_sided = r.random() < 0.5
+            g.name = r.choice(['', 'renamedgeom', 'G3', g.name])
+            g.double_sided = not g.double_sided
         else:
             list_edit(g.primitives, dict(op, how=how[5:]), r, lambda: new_primitive(g, r, op.get('kind')))
         return
@@ -563,7 +580,13 @@ def apply_op(doc, st, op, out):
         elif how == 'ch_moveto':
             if n.children:
                 c = n.children[op['pos'] % len(n.children)]
-                targets = [m for m in nodes if m is not n and not any(m is d for d in descendants(c))]
+                from collada import scene as _sc
+                lib_members = [d for ln in doc.nodes for d in descendants(ln)]
+                has_nodeinst = any(type(d) is _sc.NodeNode for d in descendants(c))
+                # an instance_node may not end up inside library_nodes (forward or cyclic references
+                # are the loader's business, not save's)
+                targets = [m for m in nodes if m is not n and not any(m is d for d in descendants(c))
+                           and not (has_nodeinst and any(m is d for d in lib_members))]
                 if targets:
                     m = targets[op['pos2'] % len(targets)]
                     n.children.remove(c)
@@ -644,9 +667,28 @@ def apply_op(doc, st, op, out):
                 e.shininess = q(r, 0, 160)
             if r.random() < 0.3:
                 e.shadingtype = r.choice(['phong', 'lambert', 'blinn', 'constant'])
-            e.double_sided = r.random() < 0.5
+            e.double_sided = not e.double_sided
             if r.random() < 0.4:
                 e.opaque_mode = r.choice([material.OPAQUE_MODE.A_ONE, material.OPAQUE_MODE.RGB_ZERO])
+            k = r.random()
+            if k < 0.25 and doc.images:
+                # a new surface/sampler pair, at the end or in front of the existing parameters
+                sf = material.Surface(st.fresh('surf'), r.choice(list(doc.images)), r.choice([None, 'A8R8G8B8']))
+                sm = material.Sampler2D(st.fresh('samp'), sf, r.choice([None, 'LINEAR']), None)
+                if r.random() < 0.5:
+                    e.params.extend([sf, sm])
+                else:
+                    e.params[0:0] = [sf, sm]
+            elif k < 0.45:
+                used = [getattr(e, p).sampler for p in e.supported if isinstance(getattr(e, p), material.Map)]
+                for p in [p for p in e.params if isinstance(p, material.Sampler2D) and not any(p is u for u in used)][:2]:
+                    e.params.remove(p)
+                    if not any(isinstance(x, material.Sampler2D) and x.surface is p.surface for x in e.params):
+                        if p.surface in e.params:
+                            e.params.remove(p.surface)
+            for p in e.params:
+                if isinstance(p, material.Surface) and r.random() < 0.2:
+                    p.id = st.fresh('surfrenamed')
             for p in e.params:
                 if isinstance(p, material.Sampler2D) and r.random() < 0.5:
                     p.minfilter = r.choice([None, 'LINEAR', 'NEAREST'])
@@ -687,6 +729,7 @@ def apply_op(doc, st, op, out):
 # =============================================================================== reconciliation sites
 
 _KEEP = []      # keeps every element ever seen alive so that id() stays unique
+_TAGS = {}      # id(element) -> tag
 
 
 def capture_children(doc):
@@ -699,12 +742,16 @@ def capture_children(doc):
         _KEEP.append(e)
         kids = list(e)
         seen[id(e)] = [id(c) for c in kids]
+        _TAGS[id(e)] = e.tag
         for c in kids:
             walk(c)
     walk(doc.xmlnode.getroot())
     for attr, _, _ in LIBS:
         for o in getattr(doc, attr):
             walk(getattr(o, 'xmlnode', None))
+    for e in doc.effects:
+        for p in e.params:
+            walk(p.xmlnode)
     for n in all_nodes(doc):
         walk(n.xmlnode)
         for t in n.transforms:
@@ -752,6 +799,11 @@ def sync_sites(doc):
         v = mesh.find(t('vertices'))
         out.append(('mesh', mesh, srcs + ([v] if v is not None else []) + [p.xmlnode for p in g.primitives]
                     + mesh.findall(t('extra'))))
+    for e in doc.effects:
+        prof = e.xmlnode.find(t('profile_COMMON'))
+        tec = prof.find(t('technique')) if prof is not None else None
+        if tec is not None:
+            out.append(('profile', prof, [p.xmlnode for p in e.params], tec))
     return out
 
 
@@ -763,11 +815,17 @@ def site_observations(doc, before):
             ids[x] = len(ids) + 1
         return ids[x]
     obs = []
-    for kind, parent, want in sync_sites(doc):
+    for site in sync_sites(doc):
+        kind, parent, want = site[0], site[1], site[2]
         _KEEP.append(parent)
         _KEEP.extend(want)
         old = before.get(id(parent), [])
-        obs.append([kind, [u(x) for x in old], [u(id(x)) for x in want], [u(id(x)) for x in parent]])
+        o = [kind, [u(x) for x in old], [u(id(x)) for x in want], [u(id(x)) for x in parent]]
+        if kind == 'profile':
+            # which identities are <newparam> elements, and the identity of <technique>
+            o.append([u(x) for x in old if _TAGS.get(x) == T('newparam')] + [u(id(x)) for x in want])
+            o.append(u(id(site[3])))
+        obs.append(o)
     return obs
 
 
@@ -804,6 +862,7 @@ def snap_prim(p):
     import numpy
     idx = [] if p.index is None else numpy.asarray(p.index).flatten().tolist()
     d = {'kind': prim_kind(p), 'material': p.material, 'inputs': snap_inputs(p), 'index': [int(x) for x in idx]}
+    d['label'] = '%s:%s:%d' % (d['kind'], d['material'], len(d['index']))
     if d['kind'] in ('polylist', 'polygons'):
         d['vcounts'] = [int(x) for x in p.vcounts]
     return d
@@ -949,6 +1008,7 @@ def read_prim_xml(p, vertices):
     d = {'kind': kind, 'material': p.get('material'),
          'inputs': sorted(inputs, key=lambda x: (x[0], x[1], x[2], str(x[3]))),
          'index': [x for q_ in ps for x in q_], 'count': int(p.get('count'))}
+    d['label'] = '%s:%s:%d' % (d['kind'], d['material'], len(d['index']))
     if kind == 'polylist':
         vc = p.find(T('vcount'))
         d['vcounts'] = [int(x) for x in (vc.text or '').split()] if vc is not None else []
